@@ -9,7 +9,7 @@ count/min/max/sum, itertools sorted), or is a reviewed site whose discharge is r
 membership-only use), or is reported; (D3) no clock / randomness / environment / address source reachable from
 generation; (D4) the collector folds into an ordered map with `+=`; (D5) every vector AddAssign appends is sorted
 in reconcile_aliases, which dominates write_generated, and the sort key covers the item; (D6) ParsedData::push is
-unconditional."""
+unconditional; (D7) the writers replace the output file (nothing an earlier run left at the path survives)."""
 import json
 import os
 import re
@@ -92,8 +92,70 @@ def run(ctx, rep):
         if fs == 'all':
             d3(ctx, rep, prog)
             d45(ctx, rep, prog)
+            d7(ctx, rep, prog)
+            d8(ctx, rep, prog)
     rep.extra['evaluations'] = total
     rep.extra['feature_sets'] = fsets
+
+
+def d7(ctx, rep, prog):
+    """D7: the bytes of an output file are a function of this run's inputs only — the generation-path writers replace the
+    file (truncating primitives, no append / seek), so nothing a previous run left at the path survives (shared with C17 W5)."""
+    from . import c17
+    for bid, (qual, file) in c17.GEN_WRITERS.items():
+        ks = [k for k in prog.bodies if prog.bodies[k]['id'] == bid]
+        if len(ks) != 1:
+            raise core.Incomplete(f'writer {bid} not found')
+        b = prog.bodies[ks[0]]
+        sub = core.Report('C06', rep.tier)
+        oo_names = {c['callee'].split('::')[-1] for c in b['calls'] if 'OpenOptions' in c['callee']}
+        writes = [c for c in b['calls'] if c17.is_write_event(c, oo_names)]
+        c17.truncating(prog, b, ks[0], sub, qual.split('::')[-1], {'file': b['file'], 'line': b['line']}, writes)
+        for o in sub.obligations:
+            rep.obligations.append(dict(o, rule='D7', key='D7:' + o['key'].split(':', 1)[1]))
+
+
+_G = r'(?:::)?(?:<[^>]*(?:<[^>]*>)?[^>]*>)?'   # optional generic arguments, with or without turbofish
+SHARED_READ = re.compile(r'\b(Mutex|RwLock|ReentrantMutex)' + _G + r'::(lock|try_lock|read|write|try_read|try_write)$'
+                         r'|atomic::Atomic\w*' + _G + r'::(load|swap|fetch_\w+|compare_exchange\w*|compare_and_swap)$'
+                         r'|\b(OnceLock|OnceCell)' + _G + r'::(set|get|take)$'
+                         r'|\bLocalKey' + _G + r'::(with|try_with|set|get|take|replace|with_borrow\w*)$'
+                         r'|\bCondvar::wait\w*$|\bDashMap\b|parking_lot::')
+
+
+def d8(ctx, rep, prog):
+    """D8 (worker isolation): the per-file workers of the parallel walk communicate only through the result channel.  No body
+    reachable from a walker callback reads cross-thread shared mutable state (a lock, an atomic read-modify-write or load, a
+    thread-local, a once-cell set from a worker): what one worker does for a file may not depend on which files other
+    workers — or the same thread, earlier — happened to handle first."""
+    pp = [k for k in prog.find('parallel_parse', crate='typeshare#bin') if prog.bodies[k]['kind'] == 'fn']
+    pde = prog.find('parse_dir_entry', crate='typeshare#bin')
+    kids = [k for k in prog.region(pp) if prog.bodies[k]['kind'] == 'closure']
+    roots = [k for k in kids if any(p in prog.reach([k]) for p in pde)]
+    if not roots or not pde:
+        raise core.Incomplete('D8: walker callback (closure of parallel_parse reaching parse_dir_entry) not found')
+    pred = prog.reach(roots)
+    hits = []
+    for k in pred:
+        b = prog.bodies[k]
+        if b.get('derived'):
+            continue
+        for c in b['calls']:
+            if SHARED_READ.search(c['callee']):
+                hits.append((k, c))
+    # positive control: the scanner recognises the idiom where the repository really uses it (Swift's AtomicBool, main thread)
+    ctl = [c for k, b in prog.bodies.items() for c in b['calls'] if SHARED_READ.search(c['callee'])]
+    if not ctl:
+        raise core.Incomplete('D8: positive control failed — no shared-state access recognised anywhere in the program (Swift::should_emit_codable_void expected)')
+    rep.analysed['D8:bodies reachable from the walker callbacks'] = len(pred)
+    occ = {}
+    for k, c in hits:
+        base = f"worker-shared-state:{prog.bodies[k]['id']}:{c['callee'].split('::')[-1]}"
+        occ[base] = occ.get(base, 0) + 1
+        rep.fail('D8', f'{base}#{occ[base]}', f"`{norm(c['snippet'])[:80]}` ({c['callee'][-70:]}) in {prog.bodies[k]['id']} is reachable from a walker thread callback ({' -> '.join(x.split('::')[-1] for x in prog.path_to(pred, k)[-4:])}): "
+                 'the worker reads state other walker threads write, so what is parsed or kept for a file depends on thread scheduling', {'file': c['file'], 'line': c['line']})
+    if not hits:
+        rep.ok('D8', 'worker-shared-state', f'{len(pred)} bodies reachable from the walker callbacks: no lock / atomic read / thread-local / once-cell access; results leave a worker only through the channel', {'file': 'cli/src/parse.rs', 'line': prog.bodies[pp[0]]['line']})
 
 
 def path_keyed(prog, region, sortcall):
